@@ -176,10 +176,7 @@ namespace occa {
       buffer->malloc(alignedBytes);
       size = alignedBytes;
 
-      modeDevice->bytesAllocated += alignedBytes;
-      modeDevice->maxBytesAllocated = std::max(
-        modeDevice->maxBytesAllocated, modeDevice->bytesAllocated
-      );
+      modeDevice->addBytesAllocated(alignedBytes);
 
     } else {
       /*
@@ -192,10 +189,7 @@ namespace occa {
       modeDevice->removeMemoryRef(newBuffer);
       newBuffer->malloc(alignedBytes);
 
-      modeDevice->bytesAllocated += alignedBytes;
-      modeDevice->maxBytesAllocated = std::max(
-        modeDevice->maxBytesAllocated, modeDevice->bytesAllocated
-      );
+      modeDevice->addBytesAllocated(alignedBytes);
 
       /*
       Loop through the reservation list. Blocks are tracked in whole multiples
@@ -319,10 +313,7 @@ namespace occa {
       modeDevice->removeMemoryRef(newBuffer);
       newBuffer->malloc(newReserved);
 
-      modeDevice->bytesAllocated += newReserved;
-      modeDevice->maxBytesAllocated = std::max(
-        modeDevice->maxBytesAllocated, modeDevice->bytesAllocated
-      );
+      modeDevice->addBytesAllocated(newReserved);
 
       /*Loop through the reservation list and migrate to new alignment*/
       it = reservations.begin();
